@@ -403,6 +403,8 @@ def run_property(prop, pid, tier, seed, args, t0):
         "functions_under_contract": {q: i for q, i in ((q, {k: v for k, v in i.items() if k in ("status", "obligations", "reason")}) for q, i in info.items())},
         "lemmas": [o.name for o in lemma_obs],
         "by_backend": by_backend,
+        "cache_hits": sum(1 for _o, r in proved if r.get("cached")),
+        "cache_note": "a cache hit is an obligation whose formula is byte-identical to one an earlier run answered `unsat`; it is listed under the back end that discharged it then and adds no solver time now (VERIF_NOCACHE=1 or the thorough tier re-solve everything)",
         "solver_time_s": round(sum(r.get("time", 0) for r in results), 2),
         "slow": [{"obligation": o.name, "seconds": round(r.get("time", 0), 1), "retried": bool(r.get("retried"))} for o, r in proved if r.get("time", 0) > budget / 10],
         "unstable": [o.name for o, r in zip(obs, results) if r.get("unstable")],
